@@ -76,11 +76,12 @@ type rule struct {
 	seen         int
 }
 type script struct {
-	armed  atomic.Bool // rules only count calls of the concurrent phase
-	mu     sync.Mutex
-	rules  []*rule
-	events map[string]chan struct{}
-	once   map[string]*sync.Once
+	armed    atomic.Bool // rules only count calls of the concurrent phase
+	mu       sync.Mutex
+	rules    []*rule
+	events   map[string]chan struct{}
+	once     map[string]*sync.Once
+	patience time.Duration // how long a held goroutine waits for its event (default 5 s)
 }
 
 func newScript(rules ...*rule) *script {
@@ -110,9 +111,13 @@ func (sc *script) wait(name string) {
 	if sc == nil || name == "" {
 		return
 	}
+	d := sc.patience
+	if d == 0 {
+		d = 5 * time.Second
+	}
 	select {
 	case <-sc.event(name):
-	case <-time.After(5 * time.Second): // a scenario that cannot be enacted must not hang the run
+	case <-time.After(d): // a scenario that cannot be enacted must not hang the run
 	}
 }
 func (sc *script) after(op, p string) {
@@ -297,7 +302,8 @@ func newEnv(c cfg29, n *noise, sc *script, populate func(fs *specfs.FS)) *env {
 	}
 	var bfs absfs.SymlinkFileSystem = fs
 	if n != nil {
-		fs.Gate = func(op, p string) { n.pause() }
+		// before the operation: noise, then the directed rules written as op "pre:<Op>"
+		fs.Gate = func(op, p string) { n.pause(); sc.after("pre:"+op, p) }
 		bfs = &delayFS{FS: fs, n: n, sc: sc}
 	}
 	nf, err := absnfs.New(bfs, c.opts())
